@@ -116,7 +116,21 @@ func isReservedGoKeyword(input string) bool {
 		input == "struct" ||
 		input == "switch" ||
 		input == "type" ||
-		input == "var"
+		input == "var" ||
+		// predeclared functions the generated code calls: an argument of
+		// that name would shadow them
+		input == "len" ||
+		input == "make" ||
+		input == "append" ||
+		input == "new" ||
+		input == "cap" ||
+		input == "copy" ||
+		input == "delete" ||
+		input == "panic" ||
+		input == "any" ||
+		input == "nil" ||
+		input == "true" ||
+		input == "false"
 }
 
 func anyToDisjunctionBranchName(value any) string {
